@@ -1434,7 +1434,7 @@ func cleanNumberConditions(ncs *[]NumberCondition) bool {
 		if commonFactor < 0 {
 			commonFactor = -commonFactor
 		}
-		for j := 1; commonFactor != 1 && j < len(nc.Summands); {
+		for j := 1; commonFactor != 1 && j < len(nc.Summands); j++ {
 			f := nc.Summands[j].Factor
 			if f < 0 {
 				f = -f
